@@ -600,6 +600,11 @@ def mon_C07(case):
             continue
         w = o.split(" ")
         pre = prev_state(case, i)
+        # a self topic admits only its own user
+        for t, m in ln.me.items():
+            for u in m["users"]:
+                if u != t:
+                    out.append((i, f"C07 [me-second-user] after `{w[0]}` the `me` topic of {t} has {u} as a subscriber"))
         if pre is None or w[0] in ("restart", "unload", "fg"):
             continue
         act = case.actor(w) if len(w) > 1 else None
@@ -1190,6 +1195,8 @@ def mon_C10_me(case):
             u = case.sess.get(sid, {}).get("user")
             k = frame_kv(f)
             what, src = k.get("what", ""), k.get("src", "-")
+            if src == "-":
+                continue            # a change of the user's own subscription to `me`, shown to the user's other sessions there
             att = any(l is not None and sid in l.me.get(u, {}).get("sess", {}) for l in (ln, pre))
             if not att:
                 out.append((i, f"C10 [me-unattached] `{fw[0]} {what}` about {src} delivered on `me` to {sid} which is not attached to `me`"))
@@ -1200,23 +1207,23 @@ def mon_C10_me(case):
                 topic, chan = src[4:], True
             else:
                 topic, chan = src, False
+            # "on+en": the other user's own subscription to `me` got presence permission by this very request (made, or given P
+            # back): the announcement makes every contact's `me` accept it, whatever the contact's own standing is (known finding)
+            enby = what == "on" and w[0] in ("mesub", "mesetsub") and case.sess.get(w[1], {}).get("user") == src and \
+                any(s2 == w[1] and f2.startswith("ctrl 200 me acs=") for s2, f2 in ln.meframes)
             modes, known, givens = _sub_modes((ln, pre), topic, u, chan)
             if not known and not chan:
                 # a channel reader whose record has just been dropped is addressed under the group's name: not a stranger
                 modes, known, givens = _sub_modes((ln, pre), topic, u, True)
             if not known:
-                out.append((i, f"C10 [me-stranger] `{fw[0]} {what}` about {src} delivered on `me` to {sid} of {u} who has no subscription to it"))
+                out.append((i, f"C10 [{'me-on-en:stranger' if enby else 'me-stranger'}] `{fw[0]} {what}` about {src} delivered on `me` to {sid} of {u} who has no subscription to it"))
                 continue
             if what in ("acs", "gone"):
                 continue
             if not modes:
-                out.append((i, f"C10 [me-removed] `{fw[0]} {what}` about {src} delivered on `me` to {sid} of {u} whose subscription is deleted"))
+                out.append((i, f"C10 [{'me-on-en:removed' if enby else 'me-removed'}] `{fw[0]} {what}` about {src} delivered on `me` to {sid} of {u} whose subscription is deleted"))
             elif not any(has(m, "P") for m in modes):
-                tag = f"me-muted:{what}"
-                if what == "on" and w[0] == "mesub" and case.sess.get(w[1], {}).get("user") == src and \
-                        any(s2 == w[1] and f2.startswith("ctrl 200 me acs=") for s2, f2 in ln.meframes):
-                    # the other user's subscription to the own `me` was made by this request: announced with "on+en"
-                    tag = "me-muted:on:new-me-sub"
+                tag = "me-on-en:muted" if enby else f"me-muted:{what}"
                 out.append((i, f"C10 [{tag}] `{fw[0]} {what}` about {src} delivered on `me` to {sid} of {u} whose permissions {modes} lack presence"))
             elif not any(has(g, "J") for g in givens):
                 # banned = the topic's managers took J away; a user who dropped J from the own request has left of the own accord
@@ -1249,9 +1256,20 @@ def mon_C10_me(case):
         idle = [t for t, c in list(ln.cache.items()) + list(ln.me.items()) if not c["sess"]]
         if att_bg or idle:
             continue
+        def visible(x):
+            """the user is on `me` and lets others see it: the user's own subscription to `me` has presence permission"""
+            mx = ln.me.get(x)
+            if mx is None or not mx["sess"] or not mx["announced"]:
+                return False
+            own = mx["users"].get(x)
+            return own is not None and has(eff(own["want"], own["given"]), "P")
+
         for ou, m in ln.me.items():
             if not m["announced"]:
                 continue
+            own = m["users"].get(ou)
+            if own is None or not has(eff(own["want"], own["given"]), "P"):
+                continue            # without P on the own `me` nothing is passed on to this user's sessions
             for key, row in ln.store.items():
                 if row["state"] != 0 or key in phantom:
                     continue
@@ -1280,7 +1298,7 @@ def mon_C10_me(case):
                     if theirs is None or theirs["deleted"] or not has(eff(theirs["want"], theirs["given"]), "P") \
                             or not has(eff(theirs["want"], theirs["given"]), "J"):
                         continue
-                    expect = x in ln.me and bool(ln.me[x]["sess"]) and ln.me[x]["announced"]
+                    expect = visible(x)
                     got = m["contacts"].get(x, (False, False))[0]
                     if got != expect:
                         out.append((i, f"C10 [p2p-converge] after `{w[0]}` everything is settled, {x} is {'on' if expect else 'not on'} `me`, "
